@@ -304,8 +304,10 @@ def _worker_main(conn, prop, do_twin):
         try:
             res = _work(prop, ob, known, do_twin and ob.twin)
         except BaseException as e:  # noqa
-            res = {'id': ob.id, 'family': ob.family, 'status': 'HARNESS_ERROR',
-                   'message': 'worker crashed: %r' % (e,), 'detail': traceback.format_exc()}
+            internal = type(e).__name__ in ('CrossHairInternal', 'Z3Exception', 'MemoryError', 'RecursionError')
+            res = {'id': ob.id, 'family': ob.family, 'status': 'UNKNOWN' if internal else 'HARNESS_ERROR',
+                   'message': ('engine failure (inconclusive): %r' if internal else 'worker crashed: %r') % (e,),
+                   'detail': traceback.format_exc()}
         conn.send(('done', res))
 
 
